@@ -264,7 +264,7 @@ def in_summary(i):
         elif mk == "RANDOM":
             mk = "RANDOM[%s #%s]" % (i.get("op"), i.get("v"))
         return "recv chan=%s rcv=%s dn=%s base=%r amt=%s%s mk=%s fw=%s acts=%s%s" % (
-            i.get("chan"), i.get("rcv"), i.get("dn"), i.get("base"), i.get("amt"), "" if i.get("amtc") == "OK" else ":" + str(i.get("amtc")),
+            i.get("chan"), i.get("rcv"), i.get("dn"), i.get("base"), "".join(map(str, i.get("amtd"))) if i.get("amtc") == "DIGITS" else i.get("amt"), "" if i.get("amtc") == "OK" else ":" + str(i.get("amtc")),
             mk, fw, acts, (" faults=%s" % i["faults"]) if i.get("faults") else "")
     if t == "admin":
         return "admin %s signer=%s pid=%s cps=%s aid=%s v=%s" % (i.get("rpc"), i.get("signer"), i.get("pid"), i.get("cps"), i.get("aid"), i.get("v"))
